@@ -37,14 +37,31 @@ NOT_APPLICABLE = {
     'C02': 'Equality of every sliding-window output with its from-scratch formula within a rounding allowance is a statement about '
            'floating-point values over all streams; no sound static argument in reach bounds a float; the structural neighbours '
            '(each component stepped once, peek = last output) are claimed under C05/C09.',
-    'C03': 'The recurrences (smoothing constants, cascades, CMO scaling) are arithmetic identities on runtime values; a tree match '
-           'against the documented formula would be a frozen source fragment (false alarm in waiting).',
     'C06': 'Whether a signal fires exactly under its documented condition compares a branchless boolean/Action expression with a '
            'prose rule per indicator; no machine-readable oracle exists without executing the code.',
     # claimed in DESIGN.md, check not built yet in this commit (moved to `checks` as each is armed):
 }
 
 PROPS = {
+    'C03': dict(
+        rules=[r_linear.rule_L04_recurrences],
+        feature_sets=_sets(['default'], ['default', 'u16', 'f32']),
+        rules_thorough=[on_build(r_linear.rule_L04_recurrences, 'u16'), on_build(r_linear.rule_L04_recurrences, 'f32')],
+        explanation=('(L04) for EMA, RMA, WSMA, DMA, TMA, DEMA, TEMA the constructor and next() are interpreted over MIR in the affine-form domain with EXPLICIT coefficients '
+                     'over the atoms "input" and "previous value of stage i" (rational functions of the length, one run per residue class of the length, narrowing casts and '
+                     'uninterpreted symbols decided over the finite range of the length). Decided: new() starts every stage at the first value; the stages form a cascade '
+                     '(stage i is updated from the new value of stage i-1 and its own old value; stage 0 is the input); every stage update is, coefficient by coefficient, '
+                     'alpha * previous stage + (1 - alpha) * own old value with the documented alpha (2/(n+1) for the EMA family, 1/n for RMA and WSMA); the returned value is the '
+                     'documented combination of the new stage values (e1; e2; e3; 2 e1 - e2; 3 (e1 - e2) + e3). Equal one-step maps from equal initial states give, by induction '
+                     'and in exact arithmetic, the documented value at every step of every stream for every length. The table of recurrences is the text of the property, not read off the code.'),
+        not_decided=['TSI, Vidya, TR, HeikinAshi and the cumulative Integral / ADI: products, ratios and selections of stream values are outside the domain (Vidya and TSI are covered only by L03 / S11 / S16 under other properties)',
+                     'floating-point rounding (mul_add vs separate operations): the argument is over the reals'],
+        assumptions=TRUST,
+        technique='static analysis: abstract interpretation of MIR in an affine-form domain with explicit symbolic coefficients, compared with the documented recurrence',
+        level_text=('For the seven exponential kinds the one-step map of next() is proved equal to the documented recurrence for every length (over the reals); '
+                    'the non-linear recursive methods and rounding are not claimed.'),
+        design_ref='DESIGN.md §11 "L04"',
+    ),
     'C15': dict(
         rules=[r_linear.rule_L01_c15, r_linear.rule_L01_convex, r_linear.rule_L03_dimensions],
         feature_sets=_sets(['default'], ['default', 'u16', 'f32']),
